@@ -7,6 +7,10 @@ CHAIN_NOTE = ("Trusted base: the harness wallet/miner/reference models in /verif
               "Sampling, not enumeration: a clean batch is evidence, not proof.")
 
 CHECKS = {
+ "C09": dict(engine="crashsim", cat="fault_enumeration", ref="5/C09",
+   text="Fault enumeration: for each scenario (plain extension with spends of several ages, header-then-block, losing fork block, reorg with spends, header-only reorg, compaction, compaction followed by a block, block after compaction) every labelled durable step is enumerated; a forked child opens a copy of the base directory, runs the operation and _exits at that step; the parent reopens the surviving directory and requires Chain::init Ok, head old/new/ancestor, validate(false), unspent set equal to the replayed ledger, an identical second reopen and convergence with an uninterrupted twin after re-delivery. Known, unrepaired defects are listed in known_findings.json and reported as KNOWN-FINDING.",
+   technique="deterministic simulation: exhaustive crash-point enumeration with process-death fault injection and reopen oracle",
+   note="Trusted base: crash points are the cfg(grin_verif) hooks (MANIFEST.hooks); fault model is process death (page cache survives), not power loss; scenarios are sampled by seed, crash points within a scenario are enumerated completely."),
  "C08": dict(engine="storesim", cat="exploration", ref="5/C08",
    text="Store level: a real prunable MMR file backend is driven with generated histories of units of work (boundary-by-boundary rewinds, appends, removals by pattern, sync or discard), compactions at any earlier boundary and reopen, for fixed- and variable-size elements, and compared after every step (root, size, data/hash of every unspent leaf, leaf set, Merkle proofs) with an independent unpruned reference MMR. Chain level: chains long enough for Chain::compact to act; compact() at random points must leave the state digest, unspent view and validate(false) unchanged and still allow a reorg inside the horizon.",
    technique="deterministic simulation: seeded store histories with compaction/reopen/discard faults against an unpruned reference model",
@@ -86,6 +90,8 @@ def main():
         "engines": [
             {"name": "storesim", "path": "/verif/sim/src/storesim.rs", "serves_properties": [p for p in claimed if p == "C08"],
              "kind_free_text": "deterministic simulation of one prunable MMR backend against an unpruned reference"},
+            {"name": "crashsim", "path": "/verif/sim/src/crashsim.rs", "serves_properties": [p for p in claimed if p == "C09"],
+             "kind_free_text": "process-death fault enumeration at every labelled durable step, reopen oracle"},
             {"name": "chainsim", "path": "/verif/sim/src/chainsim.rs", "serves_properties": [p for p in claimed if CHECKS[p]["engine"] == "chainsim" or p == "C08"],
              "kind_free_text": "deterministic simulation of N real Chain nodes on a simulated network with byzantine inputs"},
         ],
